@@ -1692,3 +1692,75 @@ func runLoopVarInit(c *Ctx, r *Reporter) {
 		r.Undecided("no creation of a loop variable found in the evaluator")
 	}
 }
+
+// R-OUTFILE: an output file that is written anew does not keep the tail of its previous content.
+//
+// `evy run --svg-out f` writes the whole drawing every time. A file opened for writing without truncation keeps the
+// bytes behind the new end: after a large drawing a smaller one leaves `</svg>` followed by the old tail — not well
+// formed, and showing shapes that were not drawn. So in the command package every file handed to a writer of whole
+// documents is created by os.Create, os.CreateTemp, or os.OpenFile with O_TRUNC, O_APPEND or O_EXCL in constant flags.
+var ruleOutFile = &Rule{
+	ID:    "R-OUTFILE",
+	Doc:   "in the command package every os.OpenFile that can write has O_TRUNC, O_APPEND or O_EXCL among its constant flags (os.Create and os.CreateTemp are fine): a whole document written over a longer old one must not keep its tail",
+	Floor: 1,
+	Run:   runOutFile,
+}
+
+func runOutFile(c *Ctx, r *Reporter) {
+	p, err := c.Default()
+	if err != nil {
+		r.Undecided("%v", err)
+		return
+	}
+	pkg := p.Pkg("")
+	if pkg == nil {
+		r.Undecided("command package not loaded")
+		return
+	}
+	n := 0
+	done := map[*ssa.Function]bool{}
+	for _, fn := range ssaFuncsOf(p, pkg) {
+		for _, f2 := range withAnon(fn) {
+			if done[f2] {
+				continue
+			}
+			done[f2] = true
+			k := 0
+			for _, b := range f2.Blocks {
+				for _, ins := range b.Instrs {
+					call, ok := ins.(*ssa.Call)
+					if !ok {
+						continue
+					}
+					sc := call.Call.StaticCallee()
+					if sc == nil || sc.Pkg == nil || sc.Pkg.Pkg.Path() != "os" {
+						continue
+					}
+					switch sc.Name() {
+					case "Create", "CreateTemp":
+						n++
+						k++
+						r.Ok(fmt.Sprintf("%s#output-file[%d]:%s", ssaQName(f2), k, sc.Name()), p.Rel(instrPos(call)), "creates an empty file")
+					case "OpenFile":
+						n++
+						k++
+						construct := fmt.Sprintf("%s#output-file[%d]:OpenFile", ssaQName(f2), k)
+						kc, ok := call.Call.Args[1].(*ssa.Const)
+						if !ok || kc.Value == nil {
+							r.Viol(construct, p.Rel(instrPos(call)), "os.OpenFile with computed flags: whether the old content is discarded cannot be decided")
+							continue
+						}
+						flags, _ := constant.Int64Val(kc.Value)
+						const oWRONLY, oRDWR, oAPPEND, oEXCL, oTRUNC = 0x1, 0x2, 0x400, 0x80, 0x200
+						writes := flags&(oWRONLY|oRDWR) != 0
+						r.Check(!writes || flags&(oTRUNC|oAPPEND|oEXCL) != 0, construct, p.Rel(instrPos(call)), "the old content is discarded (or the file is only read, appended to, or must not exist)",
+							"a file is opened for writing without O_TRUNC: a document written over a longer one keeps the old tail — after a large drawing, `evy run --svg-out f` of a smaller one leaves text behind `</svg>` (not well formed, shapes that were not drawn)")
+					}
+				}
+			}
+		}
+	}
+	if n == 0 {
+		r.Undecided("the command package creates no file")
+	}
+}
